@@ -463,7 +463,7 @@ def history(ctx, nph=1, steps=2, ncls=2):
     wA = ctx.real("kA", (0.0, 3.0)); ctx.assume(wA >= 0)
     sm.setSolidSolutionStrength({"A": wA}, 1)
     m.addCouplingModel(sm)
-    ctx.prove("no history before the first step", sm.rss is None and sm.ls is None and sm.solidStrength is None)
+    ctx.prove("no history before the first step", all(h is None or len(h) == 0 for h in (sm.rss, sm.ls, sm.solidStrength)))
     snap = []
     psds = {}
     for k in range(1, steps + 1):            # all inputs first (a counterexample of an early step must be replayable)
@@ -492,6 +492,145 @@ def history(ctx, nph=1, steps=2, ncls=2):
         ctx.prove("solid-solution entry of the step is the weighted composition of that step", ctx.eq(sm.solidStrength[k], wA * d.composition[k, 0]))
         ctx.prove("solid-solution strength is >= 0", ctx.le(0.0 * wA, sm.solidStrength[k]))
     ctx.prove("initial entry is the state before the first step", ctx.all([ctx.eq(sm.solidStrength[0], wA * d.composition[0, 0])] + [ctx.eq(sm.rss[0, p], 0.0, rtol=0.0) for p in range(nph)]))
+
+
+def host_step(ctx, nph=1, mode="or", steps=2):
+    """the real PrecipitateBase.postProcess of a host that has BOTH coupled models and a stopping condition: on every host step --
+    also on the one on which the condition fires and the run stops -- each coupled model is updated exactly once (strength history
+    keeps one entry per host step, the grain model is asked to advance over that step)"""
+    from kawin.precipitation.KWNBase import PrecipitateBase
+    from kawin.precipitation import StoppingConditions as SC
+    m, d = mk_host(ctx, nph, steps + 1, 2)
+    sm = StrengthModel()
+    wA = ctx.real("kA", (0.0, 3.0)); ctx.assume(wA >= 0)
+    sm.setSolidSolutionStrength({"A": wA}, 1)
+    gg = GrainGrowthModel(1e-10, 1e-9, 3, 1, 30)
+    asked = []
+    gg.solve = lambda simTime, **kw: asked.append(simTime)
+    m.addCouplingModel(sm); m.addCouplingModel(gg)
+    thr = ctx.real("thr", (0.0, 0.5))
+    cond = SC.VolumeFractionCondition(SC.Inequality.GREATER_THAN, thr, phase=m.phases[0])
+    m.addStoppingCondition(cond, mode)
+    psds = {(k, p): ctx.reals("N%d_%d" % (k, p), 2, (0.0, 3.0)) for k in range(1, steps + 1) for p in range(nph)}
+    for v in [x for a in psds.values() for x in _items(a)]:
+        ctx.assume(v >= 0)
+    # the parts of postProcess that build the host's own arrays are not the subject (C01/C02/C19): the recorded arrays are symbolic
+    m._calculateDependentTerms = lambda t, x: None
+    m._appendArrays = lambda Y: None
+    m._currY = None
+    cur = [0]
+
+    def upd(t, x):
+        cur[0] += 1
+        d.n = cur[0]
+        for p in range(nph):
+            m.PBM[p].PSD = psds[(cur[0], p)]
+    m._updateParticleSizeDistribution = upd
+    m.getCurrentX = lambda: (d.time[d.n], ["X"])
+    fired = []
+    for k in range(1, steps + 1):
+        x, stop = PrecipitateBase.postProcess(m, d.time[k], ["X"])
+        fired.append(bool(stop))
+        ctx.prove("strength history has one entry per host step, also on the step on which a stopping condition fires",
+                  np.shape(sm.rss) == (k + 1, nph) and np.shape(sm.solidStrength) == (k + 1,) and len(sm.rss) == d.n + 1)
+        ctx.prove("grain-growth model is advanced once per host step, also on the step on which a stopping condition fires", len(asked) == k)
+        if len(asked) == k:
+            ctx.prove("grain-growth model is advanced over exactly that host step", ctx.eq(asked[k - 1], d.time[k] - d.time[k - 1], rtol=0.0))
+        if np.shape(sm.solidStrength) == (k + 1,):
+            ctx.prove("strength entry of the step is the state of that step", ctx.eq(sm.solidStrength[k], wA * d.composition[k, 0]))
+        want = d.volFrac[k, 0] > thr
+        if k == 1:
+            ctx.prove("stop flag = the condition is met on this step", ctx.all([ctx.implies(want, stop), ctx.implies(stop, want)]))
+        if stop:
+            break
+    ctx.observe("stops", [float(f) for f in fired])
+
+
+def after_load(ctx, nph=1, n0=2, steps=1):
+    """StrengthModel history restored with load() (real save -> load through an .npz file) and the host solved further: the loaded
+    entries are kept and one entry per further host step is appended"""
+    import tempfile, os
+    import numpy as rnp                    # plain numpy: the file of the earlier session holds ordinary float arrays
+    m, d = mk_host(ctx, nph, n0 + steps + 1, 2)
+    wA = ctx.real("kA", (0.0, 3.0)); ctx.assume(wA >= 0)
+    psds = {(k, p): ctx.reals("N%d_%d" % (k, p), 2, (0.0, 3.0)) for k in range(1, steps + 1) for p in range(nph)}
+    for v in [x for a in psds.values() for x in _items(a)]:
+        ctx.assume(v >= 0)
+    # a history of n0 + 1 entries from an earlier session (concrete numbers: files hold numbers)
+    old = StrengthModel()
+    old.rss = rnp.array([[0.1 * (j + 1) * (p + 1) for p in range(nph)] for j in range(n0 + 1)], dtype=float)
+    old.ls = rnp.array([[0.3 * (j + 1) + p for p in range(nph)] for j in range(n0 + 1)], dtype=float)
+    old.solidStrength = rnp.array([0.5 + j for j in range(n0 + 1)], dtype=float)
+    fd, path = tempfile.mkstemp(suffix=".npz"); os.close(fd)
+    try:
+        old.save(path)
+        sm = StrengthModel()
+        sm.setSolidSolutionStrength({"A": wA}, 1)
+        sm.load(path)
+    finally:
+        os.remove(path)
+    ctx.prove("load restores the saved history", np.shape(sm.rss) == (n0 + 1, nph) and np.shape(sm.ls) == (n0 + 1, nph) and np.shape(sm.solidStrength) == (n0 + 1,))
+    m.addCouplingModel(sm)
+    for k in range(1, steps + 1):
+        d.n = n0 + k
+        for p in range(nph):
+            m.PBM[p].PSD = psds[(k, p)]
+        GenericModel.updateCoupledModels(m)
+        ctx.prove("history after load: loaded entries plus one entry per further host step",
+                  np.shape(sm.rss) == (n0 + 1 + k, nph) and np.shape(sm.ls) == (n0 + 1 + k, nph) and np.shape(sm.solidStrength) == (n0 + 1 + k,) and len(sm.rss) == d.n + 1)
+        if np.shape(sm.rss) != (n0 + 1 + k, nph) or np.shape(sm.solidStrength) != (n0 + 1 + k,):
+            return
+        ctx.prove("loaded entries are kept", ctx.all([ctx.eq(sm.rss[j, p], float(old.rss[j, p])) for j in range(n0 + 1) for p in range(nph)]
+                                                     + [ctx.eq(sm.solidStrength[j], float(old.solidStrength[j])) for j in range(n0 + 1)]))
+        ctx.prove("new entry is the state of the new step", ctx.eq(sm.solidStrength[n0 + k], wA * d.composition[n0 + k, 0]))
+    ctx.observe("ss", sm.solidStrength)
+
+
+def gg_reload_grid(ctx, loader="function", n=2, k=1):
+    """load -> the grid is extended (as the automatic extension during a run does) -> load again -> reset(): the second load starts
+    from the original grid, and reset() leaves a consistent state: the loaded (normalised) distribution on the grid it was loaded on"""
+    rmin, dr = 0.05, 0.02
+    gg = GrainGrowthModel(rmin, rmin + n * dr, n, 1, 10 * n)
+    t1 = ctx.real("t1", (0.5, 2.0)); ctx.assume(t1 > 0)
+    if loader == "function":
+        w = ctx.reals("w", n, (1.0, 6.0))
+        for i in range(n):
+            ctx.assume(w[i] > 0)
+        load = lambda: gg.LoadDistributionFunction(lambda R: (w if len(R) == n else np.concatenate([w, np.ones(len(R) - n)])) + 0.0 * R)
+    else:
+        wts = DISTS["a" if n == 2 else "b"]
+        data = [rmin + (i + 0.5) * dr for i in range(n) for _ in range(int(wts[i]))]
+        load = lambda: gg.LoadDistribution(data)
+    load()
+    first = [gg.pbm.PSD[i] * 1 for i in range(n)]
+    gg.pbm.addSizeClasses(k)                     # what adjustSizeClassesEuler does when the last class fills up
+    gg.time = np.append(gg.time, t1)
+    load()                                       # a new distribution is loaded into the used model
+    pb = gg.pbm
+
+    def ri(tag):
+        ok = isinstance(pb.bins, (int, np.integer)) and np.shape(pb.PSD) == (pb.bins,) and np.shape(pb.PSDsize) == (pb.bins,) and np.shape(pb.PSDbounds) == (pb.bins + 1,)
+        ctx.prove(tag + ": lengths of PSD / centres / boundaries match the class count", ok)
+        if ok:
+            nb = pb.bins
+            ctx.prove(tag + ": boundaries run from min to max in equal steps", ctx.all([ctx.eq(pb.PSDbounds[i], pb.min + i * (pb.max - pb.min) / nb) for i in range(nb + 1)]))
+            ctx.prove(tag + ": centres are the midpoints", ctx.all([ctx.eq(pb.PSDsize[i], 0.5 * (pb.PSDbounds[i] + pb.PSDbounds[i + 1])) for i in range(nb)]))
+        return ok
+    ok = ri("after the second load")
+    ctx.prove("loading starts from the original grid", pb.bins == n and float(pb.min) == rmin)
+    if not ok:
+        return
+    loaded = [pb.PSD[i] * 1 for i in range(pb.bins)]; lb = [pb.PSDbounds[i] * 1 for i in range(pb.bins + 1)]; nload = pb.bins
+    if nload == n:
+        ctx.prove("same distribution loaded twice gives the same state", ctx.all([ctx.eq(loaded[i], first[i]) for i in range(n)]))
+    pb.PSD[0] = pb.PSD[0] + 1.0
+    gg.reset()
+    ok = ri("after reset")
+    if not ok:
+        return
+    ctx.prove("reset restores the loaded (normalised) distribution on the grid it was loaded on",
+              pb.bins == nload and ctx.all([ctx.eq(pb.PSD[i], loaded[i]) for i in range(min(nload, pb.bins))] + [ctx.eq(pb.PSDbounds[i], lb[i]) for i in range(min(nload, pb.bins) + 1)]))
+    ctx.prove("reset: total grain volume is 1", ctx.eq(_m3(pb), 1.0))
 
 
 def mk_gg(ctx, n, tag="g"):
@@ -716,6 +855,17 @@ HARNESSES = [
     Harness("C18.gg_frozen", gg_frozen, functions=_FG, assumptions=_A + ["pinning strong enough to freeze every boundary (z * smallest grain radius >= 1)", "host step > 0; host times, grain-growth clock and precipitate volume fraction symbolic"],
             bounds={"grain distribution": "concrete, 2-3 classes (DISTS)", "host steps": 1}, opts={"ob_timeout": 30.0, "max_paths": 300},
             params={"quick": [{"dist": "a", "solver": "rk4"}, {"dist": "b", "solver": "euler"}], "thorough": [{"dist": dd, "solver": sv} for dd in ("a", "b", "c") for sv in ("rk4", "euler")]}),
+    Harness("C18.host_step", host_step, functions=_FS + _FG, assumptions=_A + ["host arrays symbolic; stopping condition: volume fraction of the first phase > symbolic threshold"],
+            stubs=["_calculateDependentTerms / _appendArrays / _updateParticleSizeDistribution / getCurrentX of the host (its own bookkeeping: C01, C02, C19); GrainGrowthModel.solve recorded"],
+            bounds={"host steps": "steps", "phases": "nph"},
+            params={"quick": [{"nph": 1, "mode": "or", "steps": 2}, {"nph": 1, "mode": "and", "steps": 1}], "thorough": [{"nph": 2, "mode": mo, "steps": 2} for mo in ("or", "and")]}),
+    Harness("C18.after_load", after_load, functions=_FS + [StrengthModel.save, StrengthModel.load], assumptions=_A + ["the saved history holds concrete numbers (a real .npz file is written and read)"],
+            bounds={"loaded entries": "n0 + 1", "further host steps": "steps"},
+            params={"quick": [{"nph": 1, "n0": 2, "steps": 1}, {"nph": 2, "n0": 1, "steps": 2}], "thorough": [{"nph": 2, "n0": 3, "steps": 2}]}),
+    Harness("C18.gg_reload_grid", gg_reload_grid, functions=_FG + [GrainGrowthModel.LoadDistribution, GrainGrowthModel.LoadDistributionFunction, GrainGrowthModel.reset],
+            assumptions=_A + ["function loader: symbolic class weights; data loader: concrete samples"], bounds={"classes": "n", "classes appended before the second load": "k"},
+            opts={"ob_timeout": 30.0},
+            params={"quick": [{"loader": "function", "n": 2, "k": 1}, {"loader": "data", "n": 3, "k": 2}], "thorough": [{"loader": ld, "n": nn, "k": kk} for ld in ("function", "data") for nn in (2, 3) for kk in (1, 2)]}),
     Harness("C18.gg_reload_sym", gg_reload_sym, functions=_FG + [GrainGrowthModel.LoadDistributionFunction, GrainGrowthModel.reset],
             assumptions=_A + ["symbolic positive class weights on a concrete grid; every class of the normalised distribution holds at least one grain",
                               "the step after reset is one solver iteration (postProcess) whose transport leaves the populations unchanged"],
